@@ -772,6 +772,77 @@ func (w *World) opResetCompact() {
 	w.opCompact(1)
 }
 
+// laggedSnapshotRetention (end of a history, nothing is replayed to the model afterwards): the
+// database has synced commits into local level-0 files that are NOT uploaded yet, two snapshots are
+// taken straight from the database beyond the replica's level-0 position, every snapshot but the
+// newest is expired and Store.EnforceSnapshotRetention runs with its cascade. Whatever it deletes,
+// the files still waiting for upload must survive: Replica.Sync (cached position dropped) must catch
+// up and the latest state must restore to the source.
+func (w *World) laggedSnapshotRetention() {
+	ctx, cancel := context.WithTimeout(ctxb, 60*time.Second)
+	defer cancel()
+	local := func(n int) bool {
+		for i := 0; i < n; i++ {
+			if err := w.appWrite(); err != nil {
+				w.violate("harness/app-write", err.Error())
+				return false
+			}
+			if err := w.ldb.Sync(ctx); err != nil {
+				w.violate("harness/sync", err.Error())
+				return false
+			}
+		}
+		return true
+	}
+	remote := remoteL0Max(w.replicaDir)
+	if !local(2) {
+		return
+	}
+	for i := 0; i < 2; i++ {
+		if _, err := w.ldb.Snapshot(ctx); err != nil {
+			return // e.g. a known snapshot finding: not this scenario's business
+		}
+		time.Sleep(2 * time.Millisecond)
+		if !local(1) {
+			return
+		}
+	}
+	w.store.SnapshotRetention = time.Nanosecond
+	for _, enabled := range []bool{w.ret} {
+		_ = enabled
+		if err := w.store.EnforceSnapshotRetention(ctx, w.ldb); err != nil {
+			w.violate("harness/store-snapshot-retention-error", err.Error())
+			return
+		}
+	}
+	w.counts["snapshot_retention_passes_with_replica_behind"]++
+	w.trace = append(w.trace, "storesnapret-while-replica-behind")
+	w.ldb.Replica.SetPos(ltx.Pos{})
+	if err := w.ldb.Replica.Sync(ctx); err != nil {
+		w.violate("C07/replica-cannot-catch-up-after-retention",
+			fmt.Sprintf("snapshot retention ran while the replica was behind (database at TXID %d, replica level 0 at %d, two snapshots taken from the database in between); Replica.Sync then fails: %v", w.pos(), remote, err))
+		return
+	}
+	if got := remoteL0Max(w.replicaDir); got != w.pos() {
+		w.violate("C07/replica-cannot-catch-up-after-retention",
+			fmt.Sprintf("snapshot retention ran while the replica was behind; after Replica.Sync the replica's level 0 ends at TXID %d, the database at %d", got, w.pos()))
+		return
+	}
+	w.latestOracle("Store.EnforceSnapshotRetention with the replica behind, then catch-up")
+}
+
+func remoteL0Max(replicaDir string) uint64 {
+	ents, _ := os.ReadDir(filepath.Join(replicaDir, "ltx", "0"))
+	var m uint64
+	for _, e := range ents {
+		var a, b uint64
+		if n, _ := fmt.Sscanf(e.Name(), "%016x-%016x.ltx", &a, &b); n == 2 && b > m {
+			m = b
+		}
+	}
+	return m
+}
+
 func l0rStr(l []tval) string {
 	if l == nil {
 		return "off"
@@ -1605,6 +1676,9 @@ func runHistory(dir string, rng *rand.Rand, steps int, start time.Time, index in
 			res.tsL, res.tsQ = w.tsOracle()
 			res.tsPos = w.pos()
 		}
+	}
+	if len(w.violations) == 0 && focus == "c07" && index%3 == 0 {
+		w.laggedSnapshotRetention()
 	}
 	return res
 }
